@@ -37,7 +37,7 @@ from . import _an
 PROP = "C09"
 # obligations of the properties this one is downstream of are obligations of this check too (vk.runner.collect_obligations)
 UPSTREAM = ["C05"]
-GEN_REGIONS = ["Attrs"]
+GEN_REGIONS = ["Attrs", "ResultPurity"]
 THEOREMS = {
     "SpecKitV.Lemmas.CauchySchwarz": ["cross_cs_real", "cross_cs_complex", "cross_cs_means", "cross_cs_eq_one_segment",
                                       "cross_cs_eq_dependent", "cross_swap", "cross_swap_modsq"],
@@ -46,6 +46,9 @@ THEOREMS = {
     # residual_identity' (the form without |.|) is not listed by name: the runner's `#print axioms` parser cannot read a primed name;
     # residual_eq_GyyRx is proved FROM it, so its axiom audit covers it transitively.
     "SpecKitV.Props.C01": ["auto_is_diag"],
+    # no method of a result writes in place an array its cache holds (region ResultPurity: buffer effects of every SpectrumResult method, regenerated
+    # each run) — the quantities of this property are read off that cache, in any order, possibly after plot() / get_measurement() / to_dataframe()
+    "SpecKitV.Props.ResultPurityGen": ["gen_result_methods_write_no_cached_array", "gen_result_methods_pure", "gen_session_pure", "cRun_clean_of_clean"],
 }
 CONTRACTS = ["the per-bin numbers (XX, YY, XY) handed to SpectrumResult are the segment means of |X_k|^2, |Y_k|^2, X_k conj(Y_k) of ONE set of "
              "segment DFTs (C01: kernels = Ref); the Cauchy-Schwarz hypothesis `CS d` of the attribute theorems is discharged from that by cross_cs_means"]
